@@ -212,6 +212,42 @@ def dot_apps(exprs, seen=None):
     return out
 
 
+def cdot_apps(exprs, seen=None):
+    out = {}
+    seen = set() if seen is None else seen
+
+    def visit(x):
+        if z3.is_app(x) and x.decl().kind() == z3.Z3_OP_UNINTERPRETED and x.decl().name() == 'cdot_R' and x.num_args() == 5:
+            out[x.get_id()] = x
+    for e in exprs:
+        _walk(e, seen, visit)
+    return out
+
+
+def cdot_axioms(app, frame=True):
+    """unfolding from the top (= Python's left fold) and frame instances for cdot(a, M, c, lo, hi) = sum a[j]*M[j][c]"""
+    f = app.decl()
+    a, m, c, lo, hi = [app.arg(k) for k in range(5)]
+    out = [z3.Implies(hi <= lo, app == 0),
+           z3.Implies(hi > lo, app == f(a, m, c, lo, hi - 1) + z3.Select(a, hi - 1) * z3.Select(z3.Select(m, hi - 1), c))]
+    if frame:
+        # frame lemmas (proved by induction in contracts/lemmas_sum.py: cdot_frame_*)
+        if z3.is_app(a) and a.decl().kind() == z3.Z3_OP_STORE:
+            k = a.arg(1)
+            out.append(z3.Implies(z3.Or(k < lo, k >= hi), app == f(a.arg(0), m, c, lo, hi)))
+        if z3.is_app(a) and a.decl().kind() == z3.Z3_OP_SELECT and z3.is_app(a.arg(0)) \
+                and a.arg(0).decl().kind() == z3.Z3_OP_STORE:
+            # a is row r of store(M0, k, row): case split by congruence (no lemma), so that the rows get their own instances
+            st, r = a.arg(0), a.arg(1)
+            out.append(z3.Implies(r == st.arg(1), app == f(st.arg(2), m, c, lo, hi)))
+            out.append(z3.Implies(r != st.arg(1), app == f(z3.Select(st.arg(0), r), m, c, lo, hi)))
+        if z3.is_app(m) and m.decl().kind() == z3.Z3_OP_STORE:
+            r, row = m.arg(1), m.arg(2)
+            out.append(z3.Implies(z3.Or(r < lo, r >= hi, z3.Select(row, c) == z3.Select(z3.Select(m.arg(0), r), c)),
+                                  app == f(a, m.arg(0), c, lo, hi)))
+    return out
+
+
 def dot_axioms(app, frame=True):
     """unfolding from the top (= Python's left fold) and frame instances for dot(a, b, lo, hi)"""
     f = app.decl()
@@ -258,6 +294,7 @@ def instantiate(qf, univ, goal, rounds=2, extra_terms=(), budget=60000, sum_fram
     seen_terms = set()
     seen_sum = set()
     seen_dot = set()
+    seen_cdot = set()
     pending_dot = []
     terms = {}
     total = 0
@@ -273,12 +310,27 @@ def instantiate(qf, univ, goal, rounds=2, extra_terms=(), budget=60000, sum_fram
             if did not in sums_done:
                 sums_done.add(did)
                 pending_dot.append(app)
+        for did, app in cdot_apps(new_exprs, seen_cdot).items():
+            if did not in sums_done:
+                sums_done.add(did)
+                pending_dot.append(app)
         # terms occurring inside quantified bodies that do not mention bound variables are candidates too
         for k, v in t_new.items():
             terms.setdefault(k, v)
         fresh_exprs = []
         while pending_dot:
-            fresh_exprs += dot_axioms(pending_dot.pop(), sum_frame)
+            app_ = pending_dot.pop()
+            ax_ = (cdot_axioms if app_.decl().name() == 'cdot_R' else dot_axioms)(app_, sum_frame)
+            fresh_exprs += ax_
+            if sum_frame:
+                # the frame instances (everything after the two unfolding equations) name the application over the array
+                # underneath a store: follow the chain of stores to its end now instead of one store per round
+                for finder, seen_ in ((dot_apps, seen_dot), (cdot_apps, seen_cdot)):
+                    for did, a2 in finder(ax_[2:], set()).items():
+                        if did not in sums_done and a2.arg(a2.num_args() - 1).get_id() == app_.arg(app_.num_args() - 1).get_id() \
+                                and a2.arg(a2.num_args() - 2).get_id() == app_.arg(app_.num_args() - 2).get_id():
+                            sums_done.add(did)
+                            pending_dot.append(a2)
         for sid, app in s_new.items():
             if sid in sums_done:
                 continue
@@ -749,6 +801,10 @@ def abstract_nl(e, cache):
                 else:
                     acc = atoms[0]
                     for c in atoms[1:]:
+                        # commutativity instance of this node: the order of the factors is syntactic (term ids), and two
+                        # products whose factors are equal only semantically (a select through a store) may be sorted
+                        # differently
+                        cache.setdefault('@comm', []).append(f(acc, c) == f(c, acc))
                         acc = f(acc, c)
                 for c in lits:
                     acc = c * acc
@@ -781,6 +837,8 @@ def _check_abs(assertions, timeout_ms):
         s0.set('timeout', min(timeout_ms, 5000))
         for a in assertions:
             s0.add(abstract_nl(a, cache))
+        for a in cache.get('@comm', []):
+            s0.add(a)
         if s0.check() == z3.unsat:
             return dict(status='proved', backend='z3-api(products abstracted)')
     except z3.Z3Exception:
